@@ -97,7 +97,7 @@ func main() {
 				continue
 			}
 			b = 0
-			if r.Thorough() && small[mesh] && mesh != "two-tetra" {
+			if r.Thorough() && (mesh == "tetra" || mesh == "octa" || mesh == "triangle" || mesh == "square" || mesh == "L") {
 				b = 1
 			}
 		default:
@@ -110,6 +110,11 @@ func main() {
 			}
 			if strings.Contains(n, "LoopSubdivision(2)") && b > 0 {
 				b--
+			}
+			// operations that multiply the face count or rescan an edge map per step are explored in canonical
+			// order only on the larger meshes
+			if !small[mesh] && (strings.Contains(n, "LoopSubdivision") || strings.Contains(n, "SubdivideEdges(3)") || strings.Contains(n, "SubdivideEdges(2)") || strings.Contains(n, "EliminateEdges")) {
+				b = 0
 			}
 		}
 		if chain {
@@ -141,7 +146,7 @@ func main() {
 			if len(names) == 0 {
 				continue
 			}
-			part := scen.RunBatch(b, 300000, names)
+			part := scen.RunBatch(b, 40000, names)
 			for _, x := range part {
 				if len(x.Failures) > 0 && !strings.HasPrefix(x.Scenario, "chain") {
 					failedFirst[x.Scenario[strings.Index(x.Scenario, ":")+1:]] = true
